@@ -144,6 +144,11 @@ theorem stopCall_ik (cfg : Cfg) (s : St) (err : Option GErr) (user : Bool) : IK 
   refine IK_of_cons ?_ (stopLoop_ik cfg _ err user)
   split <;> rfl
 
+theorem userStop_ik (cfg : Cfg) (s : St) : IK s (userStop cfg s) := by
+  rcases userStop_cases cfg s with ⟨hu, _, _⟩ | hu <;> rw [hu]
+  · exact IK_frame rfl
+  · exact stopCall_ik _ _ _ _
+
 theorem rejoinAfterError_ik (cfg : Cfg) (s : St) (e : GErr) : IK s (rejoinAfterError cfg s e) := by
   unfold rejoinAfterError
   simp only []
@@ -212,7 +217,7 @@ theorem step_ident (cfg : Cfg) (s : St) (e : Ev) : ∀ c' ∈ (step cfg s e).1.c
     simp only [step]; split
     · exact same _
     · exact old (IK_frame (joinAndSync_cons' _)) rfl
-  | stop => exact old (stopCall_ik cfg s none true) rfl
+  | stop => exact old (userStop_ik cfg s) rfl
   | coordDone r =>
     simp only [step]; split
     · exact same _
